@@ -45,6 +45,20 @@ CLAIMED = {
     "C18": ("Coq proof: reference-list codec over arbitrary code points with abstract whitespace (RefsCodec.v), shard tokens drawn from the digest only; P-refs/P-checkstr correspondence",
             "lines_codec, member_exact, remove_exact, prefix/suffix non-aliasing for all identifier lists; _is_string_in_refs_file/_update_refs_file/_check_string compared with the extracted functions on adversarial related identifiers; bystander search with independent hash-derived location check.",
             "DESIGN.md section 6 C18", None),
+    "C01": ("Coq proof: stream chunking / reassembly for all buffer sizes and contents, stream restore, cid = H(content) (StreamModel.v) + retrieve_stable by refinement over all histories; P-stream correspondence",
+            "chunks_concat/chunks_bounds/stream_restores/store_cid_size for every content, buffer size > 0 and data kind; retrieve_stable over arbitrary histories of other calls (refinement); "
+            "read-size sequences of the implementation compared with the extracted chunking; sizes around every multiple of the observed buffer x 8 kinds of data argument x 5 algorithms with coreutils digests; random histories between store and retrieve.",
+            "DESIGN.md section 6 C01", None),
+    "C14": ("Coq proof: constructor decision function open_decision with iff-characterisation, refusals issue no effect (Config.v); P-config correspondence",
+            "open_iff, reopen_mismatch_refused, unsupported/no-yaml-with-data/missing-key/None-value refused, effects only on accept, yaml never rewritten — for all integers and strings; "
+            "ordered pairs (creation configuration, reopening properties) on empty/populated/data-without-yaml directories compared decision-for-decision with the model, with full tree snapshots (dirs, mtimes) around every refused open.",
+            "DESIGN.md section 6 C14", None),
+    "C19": ("Coq proof: convergence of one-call and stepwise storing from every invariant state (SeqProps, by refinement + verdict lemmas); P-seq[C19] correspondence",
+            "converge_valid / converge_unvalidated / converge_invalid for every Inv state; both procedures run on model and implementation from states reached by random histories, abstract states and reports compared.",
+            "DESIGN.md section 6 C19", None),
+    "C20": ("Coq proof: client option record -> API call mapping is well typed and value preserving, create/open agreement via the C14 decision function (Client.v); P-client correspondence",
+            "client_types, client_values_* per verb, client_format_default, create-then-open both ways; calls as they reach the API (recorded by wrapping the public methods) compared with the model's mapping; effect and report compared with the API on a copy of the store.",
+            "DESIGN.md section 6 C20", None),
 }
 
 REASON_PENDING = "check not yet registered in this snapshot: machinery under construction (see DESIGN.md section 11); not claimed until its check runs green on the unchanged tree"
